@@ -121,7 +121,9 @@ theorem flatMap_spaceP_wf (s d : Int) (hd : 0 < d) (mode : SpaceMode) (es : List
 
 /-- **insertSpace**: on a well-formed tier, for ANY insertion time `s` (before the span, inside it, beyond its end —
 the former hypothesis `lo ≤ s` was never used) and `d > 0` (the property's quantifier; the code does not check the
-sign of `duration`, see lean/HYPOTHESES.md) the call succeeds unless the mode is `error`
+sign of `duration` — replayed: `d = 0` in 'split' mode cuts the straddling interval in two, `d < 0` moves entries back
+and raises TextgridStateError if they then overlap; `IntervalTier('T',[],0,10).insertSpace(5,-20)` returns the span
+`[-10, 0]`, before fix 9432f3b `[0, -10]`; whatever is returned is well-formed, `C05.step_wf`; see lean/HYPOTHESES.md) the call succeeds unless the mode is `error`
 and an interval straddles `s`; the result is well-formed, every entry is replaced by its `spaceP` image (entries
 ending at or before `s` unchanged, entries starting at or after `s` moved by exactly `d`, the straddler treated
 per mode), the span start is unchanged and the span end grows by exactly `d`. -/
